@@ -104,6 +104,7 @@ def run(tier, seed):
             ck.cov["_pass"] = ck.cov.get("_pass", 0) + 1
         ck.cov.pop("_pass", None)
         failing += f8_replay(ck, tmp)
+        failing += reuse_stream(ck, tmp)
         import c01
         failing += c01.hash_contract_stream(ck)
         ck.cov["rule"] = ("kinds: digest/size from file, file_direct, raw; payload by path; dependency inline / by path (depth 2-3); "
@@ -285,6 +286,37 @@ def build_cases(ck, tmp, variant=0):
     return cases
 
 
+def reuse_stream(ck, tmp):
+    """ONE loaded description object created twice (what SuitEnvelope.load followed by two dump calls does), the referenced file
+    rewritten in between: the second envelope describes the file as it is at the second create — the tool does not keep what it
+    computed for the first one inside the caller's description"""
+    from suit_generator.input_output import InputOutputMixin
+    fails = []
+    interp.fast_logger()
+    for j, alg in enumerate(ALG_ID):
+        d = os.path.join(tmp, f"reuse{j}")
+        os.makedirs(d, exist_ok=True)
+        p = os.path.join(d, "fw.bin")
+        desc = base_env({"suit-install": [{"suit-directive-override-parameters": {
+            "suit-parameter-image-digest": {"suit-digest-algorithm-id": alg, "suit-digest-bytes": {"file": p}},
+            "suit-parameter-image-size": {"file": p}}}]}, {"suit-integrated-payloads": {"#fw": p}})
+        for step, content in enumerate((blob(40 + j, j), blob(77, 100 + j), blob(40 + j, 200 + j))):
+            with open(p, "wb") as fh:
+                fh.write(content)
+            r = interp.run_impl(InputOutputMixin.prepare_suit_data, desc)         # the SAME object every time, no copy
+            ck.count("reuse", (alg, step), nontrivial=step > 0, sample={"alg": alg, "step": step, "history": "one description object, file rewritten between creates"})
+            why = f"create raised {r[1]}" if r[0] != "ok" else oracle({"kind": "file", "alg": alg, "digest": HASH[ALG_ID[alg]](content), "len": len(content)}, r[1], {p: content})
+            if not why and r[0] == "ok":
+                _, env = find_params(r[1])
+                if env.get("#fw") != content:
+                    why = "the integrated payload is not the file content at this create"
+            if why:
+                fails.append({"input": {"op": "reuse", "alg": alg, "step": step, "note": "one description object is created three times, fw.bin rewritten before each"},
+                              "observed": f"create {step + 1} on the same description object: {why}", "expected": "the envelope describes the file as it is at that create"})
+                break
+    return fails
+
+
 def oracle(expect, data, files):
     kind = expect["kind"]
     for why in oracle_envelope(data):
@@ -364,6 +396,17 @@ def replay(path):
     if "algorithm" in inp:
         import c01
         return c01.replay(path)
+    if inp.get("op") == "reuse":
+        class _CK:
+            def count(self, *a, **k):
+                pass
+        tmp = tempfile.mkdtemp(prefix="c05r-")
+        try:
+            fs = [f for f in reuse_stream(_CK(), tmp) if f["input"]["alg"] == inp["alg"]]
+        finally:
+            shutil.rmtree(tmp, ignore_errors=True)
+        print("REPRODUCED: " + fs[0]["observed"] if fs else "not reproduced on the current tree")
+        return 1 if fs else 0
     if inp.get("pass", 0) > 0:
         print("the failing create is part of a history (the same paths rewritten between creates in one process): re-running the histories")
         return run("quick", rec.get("seed", 0))
